@@ -442,11 +442,12 @@ class Class(object):
         
     def __delattr__(self, name):
         uname = name.upper()
-        for name in self.__dict__:
-            if uname == name.upper():
-                break
+        for key in self.__dict__:
+            if uname == key.upper():
+                del self.__dict__[key]
+                return
 
-        del self.__dict__[name]
+        raise AttributeError(name)
     
     def __str__(self):
         values = list()
